@@ -237,3 +237,148 @@ func cmdShow(args []string) int {
 	}
 	return 0
 }
+
+// cmdSurvey prints, for every constructor of the sdf package, the box it stores.
+func cmdSurvey(args []string) int {
+	ctx, err := loadRepo(loadOpts{repo: "/repo", controls: false})
+	if err != nil {
+		fmt.Println(err)
+		return 2
+	}
+	for _, fn := range ctx.srcFuncs("sdf") {
+		if fn.Parent() != nil || fn.Signature.Recv() != nil {
+			continue
+		}
+		res := fn.Signature.Results()
+		if res.Len() == 0 || !isSDFType(res.At(0).Type()) {
+			continue
+		}
+		if len(args) > 0 && !strings.Contains(fn.Name(), args[0]) {
+			continue
+		}
+		ev := newEval(ctx)
+		ev.budget = 40000
+		ev.evalRoot(fn)
+		fmt.Printf("== %s alts=%d steps=%d exceeded=%v\n", fn.Name(), len(ev.RootRets), ev.steps, ev.Exceeded)
+		for i, alt := range ev.RootRets {
+			v, ok := resultObject(alt.Val, alt.State)
+			if !ok {
+				fmt.Printf("  alt%d: %s\n", i, shortKey(valKey(alt.Val), 120))
+				continue
+			}
+			tn := "?"
+			if a, ok := v.(*Agg); ok && a.T != nil {
+				tn = a.T.String()
+			}
+			if len(args) > 1 && args[1] == "fields" {
+				m := map[string]*Term{}
+				leafTerms("", v, m)
+				var ks []string
+				for k := range m {
+					ks = append(ks, k)
+				}
+				sort.Strings(ks)
+				fmt.Printf("  alt%d: %s\n", i, tn)
+				for _, k := range ks {
+					if !strings.HasPrefix(k, ".bb") {
+						fmt.Printf("     %s = %s\n", k, shortKey(m[k].Key(), 200))
+					}
+				}
+				continue
+			}
+			bb, ok := fieldOf(v, "bb")
+			if !ok {
+				fmt.Printf("  alt%d: %s (no bb field)\n", i, tn)
+				continue
+			}
+			m := map[string]*Term{}
+			leafTerms("bb", bb, m)
+			var ks []string
+			for k := range m {
+				ks = append(ks, k)
+			}
+			sort.Strings(ks)
+			fmt.Printf("  alt%d: %s cond=%s\n", i, tn, shortKey(alt.Cond.Key(), 100))
+			for _, k := range ks {
+				fmt.Printf("     %s = %s\n", k, shortKey(m[k].Key(), 220))
+			}
+		}
+	}
+	return 0
+}
+
+// cmdSurveyEval prints the Evaluate term of every SDF implementer.
+func cmdSurveyEval(args []string) int {
+	ctx, err := loadRepo(loadOpts{repo: "/repo", controls: false})
+	if err != nil {
+		fmt.Println(err)
+		return 2
+	}
+	for _, im := range sdfImplementers(ctx) {
+		fn := methodOf(ctx, im.t, "Evaluate")
+		if fn == nil {
+			continue
+		}
+		if len(args) > 0 && !strings.Contains(typeShort(im.t), args[0]) {
+			continue
+		}
+		ev := newEval(ctx)
+		ev.budget = 40000
+		res, _ := ev.evalRoot(fn)
+		fmt.Printf("== %s steps=%d exceeded=%v size=%d\n   %s\n", typeShort(im.t), ev.steps, ev.Exceeded, func() int {
+			if t, ok := res.(*Term); ok {
+				return t.Size()
+			}
+			return -1
+		}(), shortKey(valKey(res), 400))
+	}
+	return 0
+}
+
+func cmdCompose(args []string) int {
+	ctx, err := loadRepo(loadOpts{repo: "/repo", controls: false})
+	if err != nil {
+		fmt.Println(err)
+		return 2
+	}
+	for _, fn := range ctx.srcFuncs("sdf") {
+		if fn.Parent() != nil || fn.Signature.Recv() != nil {
+			continue
+		}
+		res := fn.Signature.Results()
+		if res.Len() == 0 || !isSDFType(res.At(0).Type()) {
+			continue
+		}
+		if len(args) > 0 && !strings.Contains(fn.Name(), args[0]) {
+			continue
+		}
+		alts, _ := ctorAlts(ctx, fn, "SawTooth", "Clamp")
+		for _, ca := range alts {
+			r, ev, err := composeMethod(ctx, ca, "Evaluate", "SawTooth", "Clamp")
+			if err != nil {
+				fmt.Printf("== %s: %v\n", fn.Name(), err)
+				continue
+			}
+			fmt.Printf("== %s -> %s steps=%d\n   %s\n", fn.Name(), typeShort(ca.typ), ev.steps, shortKey(valKey(r), 600))
+			if t, ok := r.(*Term); ok && len(args) > 1 {
+				describeRec(t, 0, map[string]bool{})
+			}
+		}
+	}
+	return 0
+}
+
+// describeRec prints the recurrence chain reachable from an atom.
+func describeRec(t *Term, depth int, seen map[string]bool) {
+	if depth > 6 {
+		return
+	}
+	for _, a := range findSub(t, func(x *Term) bool { return x.Op == "a" }) {
+		if rc, ok := recs[a.S]; ok && !seen[a.S] {
+			seen[a.S] = true
+			fmt.Printf("   %srec %s: init=%s step=%s\n", strings.Repeat(" ", depth), a.S, shortKey(rc.Init.Key(), 120), shortKey(rc.Step.Key(), 500))
+			describeRec(rc.Step, depth+1, seen)
+			describeRec(rc.Init, depth+1, seen)
+		}
+	}
+}
